@@ -435,6 +435,8 @@ struct SctpInner {
     inbound_streams: Mutex<HashMap<u16, InboundStream>>,
     // Fragments of the DCEP message being reassembled, per stream id
     dcep_reassembly: Mutex<HashMap<u16, BytesMut>>,
+    // The INIT answered so far: (peer tag, peer initial TSN, our tag, our initial TSN)
+    init_answer: Mutex<Option<(u32, u32, u32, u32)>>,
 
     // PR-SCTP: Advanced Peer Ack Point (RFC 3758)
     advanced_peer_ack_tsn: AtomicU32,
@@ -893,6 +895,7 @@ impl SctpTransport {
             },
             inbound_streams: Mutex::new(HashMap::new()),
             dcep_reassembly: Mutex::new(HashMap::new()),
+            init_answer: Mutex::new(None),
             advanced_peer_ack_tsn: AtomicU32::new(0),
             forward_tsn_pending: AtomicBool::new(false),
             forward_tsn_streams: Mutex::new(Vec::new()),
@@ -1741,8 +1744,22 @@ impl SctpInner {
         self.cumulative_tsn_ack
             .store(initial_tsn.wrapping_sub(1), Ordering::SeqCst);
 
+        // A repeated INIT of the same peer (network duplicate, or its T1
+        // retransmission: same initiate tag and initial TSN) is answered with the
+        // SAME local tag and initial TSN. Drawing fresh ones for every INIT left the
+        // two ends on different parameters whenever the INIT ACKs were reordered or
+        // the last one was lost (one direction then silently delivered nothing).
+        let answered = *self.init_answer.lock();
+        let reuse = match answered {
+            Some((ptag, ptsn, ltag, ltsn)) if ptag == initiate_tag && ptsn == initial_tsn => {
+                Some((ltag, ltsn))
+            }
+            _ => None,
+        };
+        let peer_init = (initiate_tag, initial_tsn);
+
         // Generate local tag
-        let local_tag = random_u32();
+        let local_tag = reuse.map(|r| r.0).unwrap_or_else(random_u32);
         self.verification_tag.store(local_tag, Ordering::SeqCst);
 
         // Generate HMAC-protected state cookie
@@ -1761,7 +1778,14 @@ impl SctpInner {
         let initial_tsn = random_u32();
         #[cfg(rustrtc_verif)]
         let initial_tsn = verif_initial_tsn(initial_tsn);
-        self.next_tsn.store(initial_tsn, Ordering::SeqCst);
+        let initial_tsn = match reuse {
+            Some((_, ltsn)) => ltsn,
+            None => {
+                self.next_tsn.store(initial_tsn, Ordering::SeqCst);
+                *self.init_answer.lock() = Some((peer_init.0, peer_init.1, local_tag, initial_tsn));
+                initial_tsn
+            }
+        };
         init_ack_params.put_u32(initial_tsn);
 
         // Forward TSN (Type 0xC000)
